@@ -10,7 +10,7 @@ PAIRS = {
     't2data': [('generator', 'generatorlist', None)],
     't2incon': [('_block', '_blocklist', None)],
     'mulgrid': [('node', 'nodelist', None), ('column', 'columnlist', 'column'), ('layer', 'layerlist', None),
-                ('connection', 'connectionlist', 'connection'), ('well', 'welllist', None)],
+                ('connection', 'connectionlist', ('connection', 'neighbour')), ('well', 'welllist', None)],
 }
 OWNER_CLASSES = set(PAIRS)
 LIST_ADD = ('append', 'insert', 'extend')
@@ -57,7 +57,11 @@ class PairEvents(object):
             for i, (d, l, b) in enumerate(pairs):
                 self.attrmap[(cls, d)] = (i, 'D')
                 self.attrmap[(cls, l)] = (i, 'L')
-        self.backrefs = set(b for pairs in PAIRS.values() for (_, _, b) in pairs if b)
+        self.backrefs = set()
+        for pairs in PAIRS.values():
+            for (_, _, b) in pairs:
+                if isinstance(b, tuple): self.backrefs |= set(b)
+                elif b: self.backrefs.add(b)
         self.loopvars = {}      # name -> (receiver, list attr) for `for v in R.L`
         self.fromdict = {}      # name -> (receiver, pair idx) for `v = R.D[k]`
         for n in ast.walk(fi.node):
@@ -338,11 +342,11 @@ def imbalance(alt, key, backref):
     if l_plain and not dReb: out.append('the list is re-bound (%s) but the dictionary is not: stale keys remain' % l_plain[0].split(':')[1])
     if any(r.endswith('copy') for r in dReb) and any(r.endswith('copy') for r in lReb):
         out.append('dictionary and list are copied separately: the two views hold different objects')
-    if backref:
-        if dAdd and not any(x[0] is None and x[1] == 'bAdd:' + backref for x in alt):
-            out.append('an entry is added but no element\'s %s back-reference is updated' % backref)
-        if real_dRem and not any(x[0] is None and x[1] == 'bRem:' + backref for x in alt):
-            out.append('an entry is deleted but no element\'s %s back-reference is cleared' % backref)
+    for br in (backref if isinstance(backref, tuple) else ((backref,) if backref else ())):
+        if dAdd and not any(x[0] is None and x[1] == 'bAdd:' + br for x in alt):
+            out.append('an entry is added but no element\'s %s back-reference is updated' % br)
+        if real_dRem and not any(x[0] is None and x[1] == 'bRem:' + br for x in alt):
+            out.append('an entry is deleted but no element\'s %s back-reference is cleared' % br)
     return out
 
 
